@@ -343,6 +343,8 @@ func ReadBack(c *Checker, d db.KeyValueStore, bc *blockchain.Blockchain, rec *Re
 		root, err := core.GetGlobalStateRootByBlockNumber(d, n)
 		if h.GlobalStateRoot == nil {
 			c.expectMissing("core.GetGlobalStateRootByBlockNumber", err)
+			_, err = bc.GlobalStateRootByBlockNumber(n)
+			c.expectMissing("Reader.GlobalStateRootByBlockNumber", err)
 		} else {
 			c.eq("core.GetGlobalStateRootByBlockNumber", err, root, h.GlobalStateRoot)
 			root, err = bc.GlobalStateRootByBlockNumber(n)
@@ -538,6 +540,10 @@ func (c *Checker) expectMissing(accessor string, err error) {
 	c.res.Hit("accessor:" + accessor + "(nil-field)")
 	if err == nil {
 		c.fail(accessor, "nil-field-not-reported", "", "stored field is nil but the projection returned a value without error")
+	} else if errClass(err) != "missing-field" {
+		// only the accessor's own "missing …" error is the specified report of a nil field; a decode
+		// error of the projection is a different failure
+		c.fail(accessor, "nil-field-wrong-error", errClass(err), "stored field is nil; expected the \"missing …\" error, got: "+err.Error())
 	}
 }
 
